@@ -159,13 +159,16 @@ func VerifC04_v2_nums() {
 var verifPat = regexp.MustCompile("^[a-z]+$")
 
 // C04 on design v2, method strs: body s (required, 2..3 runes), e (enum a|bc),
-// pat (^[a-z]+$), ip (ipv4 format); header X-S hs (<= 2 runes).
+// pat (^[a-z]+$), ip (ipv4 format), ipp (ipv4 format and pattern ^1); header X-S hs (<= 2 runes).
 func VerifC04_v2_strs() {
 	sPresent := nondetBool("s-present")
 	s := nondetStringUpTo("s", 4)
 	verifAssume(utf8.ValidString(s)) // JSON strings are valid UTF-8
-	var e, pat, ip *string
-	switch nondetChoice("which-optional", 4) {
+	var e, pat, ip, ipp *string
+	switch nondetChoice("which-optional", 5) {
+	case 4:
+		v := nondetString("ipp-a", 1) + "." + nondetString("ipp-b", 2) + ".0.1"
+		ipp = &v
 	case 1:
 		v := nondetStringUpTo("e", 2)
 		e = &v
@@ -192,7 +195,7 @@ func VerifC04_v2_strs() {
 			if sPresent {
 				b.S = &s
 			}
-			b.E, b.Pat, b.IP = e, pat, ip
+			b.E, b.Pat, b.IP, b.Ipp = e, pat, ip, ipp
 			return nil
 		}}
 	}
@@ -224,6 +227,16 @@ func VerifC04_v2_strs() {
 			rules["invalid_format"] = true
 		}
 	}
+	if ipp != nil {
+		// both a format and a pattern: each is enforced
+		parsed := net.ParseIP(*ipp)
+		if parsed == nil || parsed.To4() == nil {
+			rules["invalid_format"] = true
+		}
+		if (*ipp)[0] != '1' {
+			rules["invalid_pattern"] = true
+		}
+	}
 	if hsPresent && utf8.RuneCountInString(hs) > 2 {
 		rules["invalid_length"] = true
 	}
@@ -237,7 +250,7 @@ func VerifC04_v2_strs() {
 		verifAssert("accepted:hs", (got.Hs != nil) == hsPresent && (got.Hs == nil || *got.Hs == hs))
 	}
 	// ---- C14 (format keywords are advisory in OpenAPI and are not compared)
-	if ip == nil {
+	if ip == nil && ipp == nil {
 		parts := map[string]any{}
 		b := &server.StrsRequestBody{E: e, Pat: pat}
 		if sPresent {
